@@ -233,6 +233,11 @@ func inModule(fn *ssa.Function) bool {
 		}
 	}
 	if p == nil || p.Pkg == nil {
+		// synthetic wrappers (bound methods, thunks) have no package: use the wrapped object's
+		if obj := fn.Object(); obj != nil && obj.Pkg() != nil {
+			pp := obj.Pkg().Path()
+			return pp == modPath || strings.HasPrefix(pp, modPath+"/")
+		}
 		return false
 	}
 	pp := p.Pkg.Path()
